@@ -5,6 +5,7 @@ sys.path.insert(0, os.path.join(ROOT, 'pygen'))
 import exprs as X
 import models as M
 import absys as A
+import nlasys as N
 sys.path.insert(0, os.path.join(ROOT, 'checks'))
 import C05 as C5
 
@@ -102,20 +103,154 @@ def execute(real, sysd, marked, wd, t0=0.0):
     return r.stdout.split('\n'), None
 
 
+NLA_MAIN = r"""
+#include <stdio.h>
+#include <math.h>
+#include "model.h"
+extern int nla_calls, nla_failed;
+static double ea[%(nv)d] = {%(ea)s};
+static double eb[%(nv)d] = {%(eb)s};
+static int isext[%(nv)d] = {%(isext)s};
+%(sig)s
+{
+    printf("CALL %%zu %%.17g\n", index, %(voi)s);
+    if (index >= VARIABLE_COUNT || !isext[index]) { printf("BADCALL %%zu\n", index); return 0.0; }
+    return ea[index] + eb[index] * %(voi)s;
+}
+int main(void)
+{
+%(body)s
+    printf("NLA %%d %%d\n", nla_calls, nla_failed);
+    return 0;
+}
+"""
+
+
+def nla_stage(chk, hx, rng, n, wd, oracle, stats):
+    """NLA blocks some of whose unknowns are marked external: k equations linear in k + m initialised variables, m of them
+    marked; the generated C is linked with a Newton solver and run with a callback that depends on the variable of integration"""
+    T0, T1, S1 = 0.0, 0.5, 1.5
+    attempts = 0
+    while stats['nla_systems'] < n and attempts < 20 * n:
+        attempts += 1
+        d = N.gen(rng)
+        if d is None:
+            continue
+        fn = os.path.join(wd, 'n.cellml'); open(fn, 'w').write(d['text'])
+        ext = sum([['c', nm] for nm in d['ext']], [])
+        real = run_real(hx, fn, ext)
+        if real is None:
+            oracle.append(('the library crashed on an NLA block with externals %s' % d['ext'], d['text'], ext)); continue
+        want = 'dae' if d['ode'] else 'nla'
+        if real['type'] != want:
+            stats['nla_not_' + str(real['type'])] = stats.get('nla_not_' + str(real['type']), 0) + 1
+            oracle.append(('an NLA block of %d equations in %d initialised variables with %s marked as external (a square system in which every equation involves every unknown is left) is reported as %s' % (d['k'], d['k'] + d['m'], d['ext'], real['type']), d['text'], ext))
+            continue
+        stats['nla_systems'] += 1
+        stats['nla_marked'] += d['m']
+        bad = False
+        for nm in d['names']:
+            t = real['vars'].get(('c', nm), (None,))[0]
+            exp_t = 'external' if nm in d['ext'] else 'algebraic'
+            if t != exp_t:
+                oracle.append(('NLA unknown %s (%s) is reported as %s' % (nm, 'marked' if nm in d['ext'] else 'not marked', t), d['text'], ext)); bad = True
+        for nm in d['ext']:
+            if real['eqtypes'].get('c.' + nm) != ['external']:
+                oracle.append(('the marked NLA unknown %s has the equations %s instead of one placeholder equation of type external' % (nm, real['eqtypes'].get('c.' + nm)), d['text'], ext)); bad = True
+        if bad:
+            continue
+        nv = max([i for (t, i) in real['vars'].values() if i is not None and t != 'state'] + [-1]) + 1
+        ea = ['0.0'] * max(nv, 1); eb = ['0.0'] * max(nv, 1); isext = ['0'] * max(nv, 1)
+        idx = {}
+        for (c, nm), (t, i) in real['vars'].items():
+            if t != 'state' and i is not None:
+                idx[i] = nm
+                if t == 'external':
+                    isext[i] = '1'; ea[i] = repr(float(d['extf'][nm][0])); eb[i] = repr(float(d['extf'][nm][1]))
+        if d['ode']:
+            sig = 'static double ext(double voi, double *states, double *rates, double *variables, size_t index)'
+            body = ('    double *states = createStatesArray(), *rates = createStatesArray(), *variables = createVariablesArray();\n'
+                    '    printf("PHASE init\\n"); initialiseVariables(%r, states, rates, variables, ext);\n'
+                    '    printf("PHASE constants\\n"); computeComputedConstants(variables);\n'
+                    '    for (size_t i = 0; i < STATE_COUNT; ++i) states[i] = %r;\n'
+                    '    printf("PHASE rates\\n"); computeRates(%r, states, rates, variables, ext);\n'
+                    '    printf("PHASE variables\\n"); computeVariables(%r, states, rates, variables, ext);\n'
+                    '    for (size_t i = 0; i < STATE_COUNT; ++i) printf("S %%s %%.17g %%.17g\\n", STATE_INFO[i].name, states[i], rates[i]);\n'
+                    '    for (size_t i = 0; i < VARIABLE_COUNT; ++i) printf("V %%s %%.17g\\n", VARIABLE_INFO[i].name, variables[i]);') % (T0, S1, T1, T1)
+            voi = 'voi'
+        else:
+            sig = 'static double ext(double *variables, size_t index)'
+            body = ('    double *variables = createVariablesArray();\n'
+                    '    printf("PHASE init\\n"); initialiseVariables(variables, ext);\n'
+                    '    printf("PHASE constants\\n"); computeComputedConstants(variables);\n'
+                    '    printf("PHASE variables\\n"); computeVariables(variables, ext);\n'
+                    '    for (size_t i = 0; i < VARIABLE_COUNT; ++i) printf("V %s %.17g\\n", VARIABLE_INFO[i].name, variables[i]);')
+            voi = '0.0'
+        if d['m'] == 0:
+            sig = sig.replace('static double ext(', 'double ext_unused(')
+            body = body.replace(', ext)', ')').replace('(variables, ext)', '(variables)').replace('initialiseVariables(%r, ' % T0, 'initialiseVariables(')
+        open(os.path.join(wd, 'model.h'), 'w').write(real['iface']); open(os.path.join(wd, 'model.c'), 'w').write(real['impl'])
+        open(os.path.join(wd, 'solver.c'), 'w').write(N.NEWTON_C)
+        open(os.path.join(wd, 'main.c'), 'w').write(NLA_MAIN % dict(nv=max(nv, 1), ea=', '.join(ea), eb=', '.join(eb), isext=', '.join(isext), sig=sig, body=body, voi=voi))
+        ex = os.path.join(wd, 'n.out')
+        r = subprocess.run(['gcc', '-std=c99', '-O0', '-w', os.path.join(wd, 'model.c'), os.path.join(wd, 'main.c'), os.path.join(wd, 'solver.c'), '-I', wd, '-o', ex, '-lm'], capture_output=True, text=True)
+        if r.returncode != 0:
+            oracle.append(('generated code of an NLA block with externals does not compile: ' + r.stderr[:400], d['text'], ext)); continue
+        r = subprocess.run([ex], capture_output=True, text=True, timeout=20)
+        if r.returncode != 0:
+            oracle.append(('generated code of an NLA block with externals crashes (rc=%d)' % r.returncode, d['text'], ext)); continue
+        stats['nla_executed'] += 1
+        exp = N.expected(d, S1, T1) if d['ode'] else N.expected(d, 0, 0)
+        phase = None; called = {}
+        lines = r.stdout.split('\n')
+        failed = any(l.startswith('NLA ') and l.split()[2] != '0' for l in lines)
+        if failed:
+            stats['nla_solver_gave_up'] += 1
+        for l in lines:
+            t = l.split()
+            if not t:
+                continue
+            if t[0] == 'PHASE':
+                phase = t[1]
+            elif t[0] == 'BADCALL':
+                oracle.append(('the callback is invoked for index %s, which is not an external variable' % t[1], d['text'], ext))
+            elif t[0] == 'CALL':
+                stats['callback_calls'] += 1
+                called.setdefault(idx.get(int(t[1])), set()).add(phase)
+            elif t[0] == 'V' or t[0] == 'S':
+                if t[0] == 'S':
+                    name, got = "s'", float(t[3])
+                else:
+                    name, got = t[1], float(t[2])
+                if name not in exp:
+                    continue
+                stats['values_compared'] += 1
+                if not (abs(got - exp[name]) <= 1e-5 * max(1.0, abs(exp[name]))):
+                    if failed and name not in d['ext']:
+                        continue
+                    what = 'supplied by the callback' if name in d['ext'] else 'which the equations determine'
+                    oracle.append(('NLA block with %s marked as external (callback a + b*voi, voi = %r, state = %r): %s = %r, %s, should be %r' % (d['ext'], T1 if d['ode'] else 0.0, S1, name, got, what, exp[name]), d['text'], ext))
+                    break
+        for nm in d['ext']:
+            ph = called.get(nm, set())
+            if 'init' not in ph or not (ph & {'rates', 'variables'}):
+                oracle.append(('the marked NLA unknown %s is obtained through the callback in %s only' % (nm, sorted(ph)), d['text'], ext))
+
+
 def run(chk, replay=None):
     lib = build_lib()
     hx = build_hx('hx_gencode', lib)
     leandir, ok, out, changed = standard_lean(chk, 'C20')
     chk.assumptions += [
         'the Lean part covers the marking logic of the classification model (Cellml/Analyser/Model.lean: the external flag, the third pass that treats unknown externals as initialised, the type shown for a marked class); placeholder equations, NLA unknown pruning and the generated callback code are observed on the implementation (execution with a recording callback), not modelled',
-        'generated systems have no NLA block when they are executed (no solver is linked); NLA systems with externals are analysed and compiled only',
+        'NLA blocks are linear in their unknowns (exact ground truth) and are solved by a Newton iteration linked to the generated C (pygen/nlasys.py); a run in which the solver gives up is not compared',
         'declared dependencies are drawn from quantities the marked one does not feed (no dependency cycles)']
     chk.cov['trusted_base'] += ['harness/hx_gencode.cpp', 'pygen/models.py (ground truth), pygen/absys.py', 'checks/C20.py: recording callback harness, gcc']
     if not ok:
         chk.violation('Lean obligations of C20 no longer check: ' + out[-1500:], {'kind': 'proof', 'theorem_or_build_log': out[-3000:]}, False)
     rng = random.Random(chk.seed)
     n = 50 if chk.tier == 'quick' else 500
-    stats = {'systems': 0, 'marked': 0, 'executed': 0, 'callback_calls': 0, 'frame_classes': 0, 'rescued_underconstrained': 0, 'odd_markings': 0, 'values_compared': 0, 'fragile_regenerated': 0}
+    stats = {'systems': 0, 'marked': 0, 'executed': 0, 'callback_calls': 0, 'frame_classes': 0, 'rescued_underconstrained': 0, 'odd_markings': 0, 'values_compared': 0, 'fragile_regenerated': 0, 'nla_systems': 0, 'nla_marked': 0, 'nla_executed': 0, 'nla_solver_gave_up': 0}
     oracle = []
     wd = tempfile.mkdtemp(prefix='c20-')
     try:
@@ -262,11 +397,12 @@ def run(chk, replay=None):
                     oracle.append(('the library crashed with the marking %s' % o, text, o))
                 elif r2['type'] not in VALID:
                     oracle.append(('marking the non-primary variable %s breaks the analysis: %s' % (o, r2['type']), text, o))
+        nla_stage(chk, hx, rng, 60 if chk.tier == 'quick' else 600, wd, oracle, stats)
     finally:
         shutil.rmtree(wd, ignore_errors=True)
-    chk.cov.update(evaluations=stats['systems'] + stats['odd_markings'] + stats['rescued_underconstrained'], distinct_nontrivial=stats['systems'],
+    chk.cov.update(evaluations=stats['nla_systems'] + stats['systems'] + stats['odd_markings'] + stats['rescued_underconstrained'], distinct_nontrivial=stats['systems'],
                    rule='generated ground-truth systems with 1-3 quantities marked external (states, constants, computed constants, algebraic) and 0-2 declared dependencies each: '
-                        'types with / without marking, generated C executed with a recording callback that returns the ground-truth values; missing-equation variants rescued by marking; VOI, non-primary and foreign markings',
+                        'types with / without marking, generated C executed with a recording callback that returns the ground-truth values; missing-equation variants rescued by marking; VOI, non-primary and foreign markings; NLA blocks (1-3 equations linear in up to 6 initialised variables, 0-3 of them marked, right-hand sides that depend on a state and the variable of integration) executed with a Newton solver and a callback that depends on the variable of integration',
                    samples=[], traces_validated_against_impl=stats['executed'], exhaustive=False, outcome_histogram=stats)
     for what, text, ext in oracle[:3]:
         chk.violation('external variables disturb the analysis or the generated code: ' + what, {'kind': 'oracle', 'engine': 'externals', 'cellml': text, 'externals': ext, 'why': what}, True)
